@@ -45,6 +45,7 @@ fn main() {
         "ratelim_refresh" => ratelim::refresh(&args),
         "ratelim_window" => ratelim::window(&args),
         "mailbox" => mailbox::run(&args),
+        "typegate" => mailbox::typegate(&args),
         "elect" => cluster::elect(&args),
         "elect_search" => cluster::elect_search(&args),
         "frame_len" => cluster::frame_len(&args),
